@@ -3,8 +3,11 @@ package c18
 // Regression tests (kind "plain": no rapid involved) for findings of the C18 check on the unchanged tree.
 
 import (
+	"fmt"
+	"strings"
 	"testing"
 
+	sm "github.com/tendermint/tendermint/state"
 	"github.com/tendermint/tendermint/store"
 
 	"verif/lib"
@@ -61,5 +64,74 @@ func TestRegressPruneIntermediateBase(t *testing.T) {
 	}
 	if c.BlockStore.Base() != retain {
 		t.Fatalf("base after the prune: %d", c.BlockStore.Base())
+	}
+}
+
+// TestRegressRollbackValidatorIndex — finding C18-rollback-validator-index.
+//
+// state.Rollback (state n -> n-1) lowers a LastHeightValidatorsChanged above n-1 to n and saves the rebuilt state:
+// Store.Save then rewrites the validators record of height n+1 as "no set, last changed at n". When the validators
+// were updated in block n-1 (effective n+1: the record held the full new set) or in block n, height n normally holds
+// no set: LoadValidators(n+1) fails right after the rollback and, once the restarted node has applied block n again
+// and gone on, for every height up to the next validator change — all of them inside [base, height].
+func TestRegressRollbackValidatorIndex(t *testing.T) {
+	for _, changeAt := range []int64{5, 6} { // validator update in block n-1 / in block n, rollback of n = 6
+		c, err := lib.NewChain(lib.ChainSpec{Keys: []int{0, 1}, Powers: []int64{10, 10}})
+		if err != nil {
+			t.Fatal(err)
+		}
+		for h := int64(1); h <= 6; h++ {
+			plan := &lib.HeightPlan{}
+			if h == changeAt {
+				plan.ValUpdates = []lib.ValUpdate{{Key: 1, Power: 7}}
+			}
+			if err := c.Advance(plan); err != nil {
+				t.Fatal(err)
+			}
+		}
+		if _, _, err := sm.Rollback(c.BlockStore, c.StateStore); err != nil {
+			t.Fatal(err)
+		}
+		c.App.Rollback(5)
+		st, err := c.StateStore.Load()
+		if err != nil || st.LastBlockHeight != 5 {
+			t.Fatalf("state after rollback: height %d err %v", st.LastBlockHeight, err)
+		}
+		// restart: the handshake applies block 6 again, then the chain goes on
+		if c.State, _, err = c.Exec.ApplyBlock(st, c.IDs[6], c.Blocks[6]); err != nil {
+			t.Fatal(err)
+		}
+		var bad []string
+		func() { // a running node dies here: ApplyBlock panics when it cannot load the validators of the last commit
+			defer func() {
+				if r := recover(); r != nil {
+					bad = append(bad, fmt.Sprintf("applying block %d panicked: %v", c.NextHeight(), r))
+				}
+			}()
+			for h := int64(7); h <= 9; h++ {
+				if err := c.Advance(nil); err != nil {
+					t.Fatal(err)
+				}
+			}
+		}()
+		for h := c.BlockStore.Base(); h <= c.BlockStore.Height()+1; h++ {
+			vs, err := c.StateStore.LoadValidators(h)
+			switch {
+			case err != nil:
+				bad = append(bad, fmt.Sprintf("LoadValidators(%d): %v", h, err))
+			case !sameValSet(vs, c.ValidatorsAt(h)):
+				bad = append(bad, fmt.Sprintf("LoadValidators(%d) returns another set than the one in force at %d", h, h))
+			}
+		}
+		tip := c.BlockStore.Height()
+		c.Close()
+		if len(bad) > 0 {
+			if lib.IsKnown(knownRollbackID) {
+				lib.ObservedKnown(knownRollbackID)
+				continue
+			}
+			t.Fatalf("validator update in block %d, state 6 rolled back, block 6 applied again, chain continued to %d (base 1):\n  %s",
+				changeAt, tip, strings.Join(bad, "\n  "))
+		}
 	}
 }
